@@ -98,6 +98,16 @@ CLAIMED["C18"] = (E7, "property-based testing (proptest) of rumqttc EventLoop v4
    "Keep-alive K in {1,2,5,30} s (v5 below 5 s through the CONNACK server keep alive), per-ping reply delay in [0,K) at ms granularity or silence from ping j on, user / broker traffic in either direction, K = 0, handshakes that never complete: gaps CONNACK->ping->ping <= K; a silent broker is reported (AwaitPingResp) within [T+K, T+2K] of the unanswered ping; no keep-alive error while every reply takes < K; no PINGREQ for K = 0; an incomplete handshake is reported at exactly the connection timeout. All (d1,d2) phase offsets on a 100 ms grid for K in {1,2} are enumerated. Exploration otherwise.",
    "Trusts hook H6 and the paused tokio clock (all wake-ups in-process, so virtual timestamps are exact).", "§5 C18")
 
+E5 = "E5 fullstack"
+for _p, _extra in {
+  "C16": " Full-stack layer (E5): the real per-connection task remote() over an in-memory stream with the real router loop: connections with/without will end by DISCONNECT, close at any point (mid-packet, after PUBLISH), malformed packets, router-initiated close, keep-alive expiry (thorough): an observer receives the will exactly once before a sentinel iff the client did not send DISCONNECT; retained copy visible to a late subscriber.",
+  "C19": " Full-stack layer (E5): first bytes on a fresh connection (CONNECT with at most one defect: wrong protocol level/name, keep-alive 0, client id with + $ # /, empty id with/without clean session, login absent/wrong/right; any other packet; garbage; silence) against listeners with no auth / static map / external callback / both, followed by SUBSCRIBE+PUBLISH: a successful CONNACK is written iff the reference admission rule admits; otherwise the follow-up has no effect (observer + sentinel, session probe); end-to-end takeover.",
+  "C20": " Full-stack layer (E5): publisher and subscriber through real v4/v5 connection tasks for all four version pairs, every subset of v5 publish properties incl. topic alias, QoS 0-2 with full ack flows: the subscriber's bytes decode to the published topic/payload (properties preserved towards v5, legal 3.1.1 frame towards v4) and both tasks stay alive (no panic, PINGRESP).",
+}.items():
+    e, t, text, note, ref = CLAIMED[_p]
+    text = text.replace(" The decision logic of remote() (which event is sent when) is not yet covered here (planned E5).", "").replace(" CONNECT validation / authentication (first sentence) is covered by the E5 engine, being merged.", "").replace(" The end-to-end variant through two per-connection tasks is covered by the E5 engine, being merged.", "")
+    CLAIMED[_p] = (e + " + " + E5, t + "; full-stack scripted clients against remote()+RemoteLink+Network over in-memory streams, barrier-synchronised", text + _extra, note + " E5 runs real tasks and a router thread: assertions are barrier-synchronised (sentinel messages, FIFO of the router channel); a watchdog expiry is inconclusive, never a violation. Hooks H1, H3, H5.", ref)
+
 NOT_YET = "check not built yet in this revision of /verif (under construction; see DESIGN.md §5 for the planned generator and oracle)"
 
 def main():
@@ -132,6 +142,7 @@ def main():
             {"name": "E3 commitlog", "path": "harness/src/commitlog.rs", "serves_properties": ["C13"], "kind_free_text": "append-history model + op interpreter + proptest + short-sequence enumerator"},
             {"name": "E1 codec", "path": "harness/src/codec/", "serves_properties": ["C04", "C05"], "kind_free_text": "neutral packet model, generators, 4 codec adapters, reference framer/encoder/decoder, chunked stream drivers"},
             {"name": "E7 clientloop", "path": "harness/src/clientloop/", "serves_properties": ["C02", "C07", "C10", "C11", "C18"], "kind_free_text": "rumqttc EventLoop v4/v5 over an in-memory transport (hook H6), paused clock, scripted broker with byte-exact fault injection, log oracle"},
+            {"name": "E5 fullstack", "path": "harness/src/fullstack/", "serves_properties": ["C16", "C19", "C20"], "kind_free_text": "real per-connection tasks (verif_remote) over tokio duplex streams, real router loop on a harness thread, scripted raw-byte clients, sentinel barriers"},
             {"name": "E6 clientstate", "path": "harness/src/clientstate/", "serves_properties": ["C02", "C07", "C10", "C11"], "kind_free_text": "drivers for rumqttc MqttState v4/v5, reference model of accepted publishes, op interpreter"},
             {"name": "E4 brokersim", "path": "harness/src/brokersim/", "serves_properties": ["C01", "C03", "C06", "C08", "C09", "C14", "C15", "C16", "C17", "C19", "C20"], "kind_free_text": "deterministic single-threaded driver of the real Router (hooks H1/H2/H4), simulated clients, reference broker model, proptest histories"},
         ],
